@@ -99,7 +99,15 @@ func unmarshalMultiPolygon(order byteOrder, data []byte) (orb.MultiPolygon, erro
 	result := make(orb.MultiPolygon, 0, alloc)
 
 	for i := 0; i < int(num); i++ {
-		p, _, err := ScanPolygon(data)
+		// a member is a plain polygon (see unmarshalMultiPoint)
+		mOrder, typ, _, geomData, err := unmarshalByteOrderType(data)
+		if err != nil {
+			return nil, err
+		}
+		if typ != polygonType {
+			return nil, ErrIncorrectGeometry
+		}
+		p, err := unmarshalPolygon(mOrder, geomData)
 		if err != nil {
 			return nil, err
 		}
